@@ -162,7 +162,16 @@ def run_translator(log):
     return rc == 0, out
 
 
+def _jobs(default):
+    """VERIF_JOBS (testing aid, never set by the registered commands): cap on parallel coqc processes."""
+    try:
+        return max(1, min(default, int(os.environ.get("VERIF_JOBS") or default)))
+    except ValueError:
+        return default
+
+
 def make_targets(targets, jobs=16, timeout=1500):
+    jobs = _jobs(jobs)
     refresh_coqproject()
     rc, out = sh(["make", "-j%d" % jobs, "-k"] + targets, cwd=COQ, timeout=timeout)
     return rc, out
@@ -617,7 +626,7 @@ class Ctx:
 
     def coq_eval_shards(self, base, texts, prints, timeout=900, workers=8):
         """Evaluate several cases files in parallel; returns list of dicts (None entries on failure)."""
-        with ThreadPoolExecutor(max_workers=workers) as ex:
+        with ThreadPoolExecutor(max_workers=_jobs(workers)) as ex:
             futs = [ex.submit(self.coq_eval, "%s_%03d" % (base, i), t, prints, timeout) for i, t in enumerate(texts)]
             return [f.result() for f in futs]
 
